@@ -369,6 +369,7 @@ func runC01(c *Ctx) {
 
 	// ---------------- R-FRESH: decode targets and buffers are per iteration
 	c.FreshObligations(scope, "parsers")
+	c01Extras4(c, scope)
 
 	// ---------------- R-PANIC
 	for _, fn := range scope {
